@@ -93,11 +93,43 @@ func baseEnv(scratch string) []string {
 }
 
 func main() {
-	if len(os.Args) < 4 {
+	if len(os.Args) < 4 && !(len(os.Args) == 2 && os.Args[1] == "value-one") {
 		fmt.Fprintln(os.Stderr, "usage: harness <prop> <seed> <count> [tier]")
 		os.Exit(2)
 	}
 	name := os.Args[1]
+	if name == "value-one" { // replay of one stored case read from stdin (same line format)
+		sc := bufio.NewScanner(os.Stdin)
+		sc.Buffer(make([]byte, 1<<20), 1<<28)
+		w := bufio.NewWriterSize(os.Stdout, 1<<20)
+		out := &Out{w: w}
+		for sc.Scan() {
+			parts := strings.Split(sc.Text(), "\t")
+			k := -1
+			for i, p := range parts {
+				if p == "|" {
+					k = i
+				}
+			}
+			if k < 0 {
+				continue
+			}
+			unhex := func(l []string) []string {
+				r := make([]string, len(l))
+				for i, x := range l {
+					b, _ := hex.DecodeString(x)
+					r[i] = string(b)
+				}
+				return r
+			}
+			cf, ef := unhex(parts[1:k]), unhex(parts[k+1:])
+			got := valueOne(cf, ef)
+			ef2 := append([]string{got}, ef[1:]...)
+			out.Emit("value", cf, ef2)
+		}
+		w.Flush()
+		return
+	}
 	if strings.HasSuffix(name, "-child") {
 		p, ok := props[strings.TrimSuffix(name, "-child")]
 		if !ok {
